@@ -310,6 +310,8 @@ def _bool(ex, v=False):
 
 
 def _sum(ex, it, start=0):
+    if isinstance(it, (SymList, SymSeq)) and getattr(it, "sum_fn", None) is not None:
+        return it.sum_fn(ex)
     acc = start
     for x in ex.iterate(it):
         acc = ex.binop(ast.Add(), acc, x)
@@ -697,7 +699,10 @@ def pymethod(ex, o, name, args, kw):
             return SetVal([x for x in o if any(ex.truthy(ex.eq(x, y)) for y in other)])
     if isinstance(o, SymSeq):
         if name == "index":
-            pos = seq_index_model(ex, o, args[0])
+            if getattr(o, "index_fn", None) is not None:
+                pos = o.index_fn(_elem_term(args[0]))  # contract-supplied definitional extension of list.index
+            else:
+                pos = seq_index_model(ex, o, args[0])
             if ex.branch(pos >= 0):
                 return SNum(pos, True)
             raise PyRaise("ValueError", "list.index")
